@@ -32,6 +32,8 @@ def consts_for_tlc(c):
         InitTreat=Fn(c.get("treat", {9: 4, 10: 4, 11: 2})),
         InitErrDev=set(c.get("errdev", [0, 1, 2, 3, 11])),
         InitRegd=set(x["v"] for x in c.get("customs", [])),
+        HandlerOpts=[dict(nocolor=bool(x.get("nocolor")), nosource=bool(x.get("nosource")), json=bool(x.get("json")), level=x.get("level", 0))
+                     for x in c.get("handler_opts", [])],
         RegCalls=[dict(v=x["v"], t=x.get("t", -1), e=bool(x.get("e")), clash=bool(x.get("clash"))) for x in c.get("reg_calls", [])],
         WLevels=set(c.get("wlevels", [])),
         # harness/rec.go: writer id w is LevelSettable iff (w-1) % 4 in {2, 3}
@@ -73,6 +75,10 @@ def label_to_event(label):
         return dict(op="DbgMode", l=0, k="", a=a[0], b=0)
     if name == "VrbMode":
         return dict(op="VrbMode", l=0, k="", a=a[0], b=0)
+    if name == "MkHandler":
+        return dict(op="MkHandler", l=a[0], k="", a=a[1], b=0)
+    if name == "HEmit":
+        return dict(op="HEmit", l=a[0], k="", a=a[1], b=0)
     if name == "Register":
         return dict(op="Register", l=0, k="", a=a[0], b=0)
     if name == "PkgSkip":
@@ -101,6 +107,7 @@ def random_behaviours(c, rng, count, depth, max_loggers):
     names = list(c["names"]) + [""]
     for _ in range(count):
         n = 1
+        nh = 0
         beh = []
         for _ in range(depth):
             acts = [a for a in c["acts"]]
@@ -153,6 +160,12 @@ def random_behaviours(c, rng, count, depth, max_loggers):
                 beh.append(dict(op="DbgMode", l=0, k="", a=rng.randint(0, 1), b=0))
             elif op == "VrbMode":
                 beh.append(dict(op="VrbMode", l=0, k="", a=rng.randint(0, 1), b=0))
+            elif op == "MkHandler":
+                beh.append(dict(op="MkHandler", l=rng.randint(1, n), k="", a=rng.randint(1, len(c["handler_opts"])), b=0))
+                nh += 1
+            elif op == "HEmit":
+                if nh:
+                    beh.append(dict(op="HEmit", l=rng.randint(1, nh), k="", a=rng.choice([2, 3, 4, 5]), b=0))
             elif op == "Register":
                 beh.append(dict(op="Register", l=0, k="", a=rng.randint(1, len(c["reg_calls"])), b=0))
             elif op == "PkgSkip":
@@ -200,7 +213,7 @@ def mc_only(ctx, c, invariants, properties, name="core-mc-only", timeout=1500):
                      ["INIT Init", "NEXT Next", "CHECK_DEADLOCK FALSE", "INVARIANTS " + " ".join(invariants)] +
                      (["PROPERTIES " + " ".join(properties)] if properties else []),
                      plain=dict(MaxLoggers=c["max_loggers"], InitLevel=c["init_level"], MaxList=c.get("max_list", 2),
-                                MaxArgs=c.get("max_args", 0), MaxSaved=c.get("max_saved", 2)))
+                                MaxArgs=c.get("max_args", 0), MaxSaved=c.get("max_saved", 2), MaxHandlers=c.get("max_handlers", 1)))
     return ctx.model_check("MCB", "MCB.cfg", files={"MCB.tla": mc, "MCB.cfg": cfg}, name=name, timeout=timeout)
 
 
@@ -213,7 +226,7 @@ def run_core(ctx, c, invariants, properties, obs, rand_count, rand_depth, rand_l
                       "INVARIANTS " + " ".join(invariants)] +
                      (["PROPERTIES " + " ".join(properties)] if properties else []),
                      plain=dict(MaxLoggers=c["max_loggers"], InitLevel=c["init_level"], MaxList=c.get("max_list", 2),
-                                MaxArgs=c.get("max_args", 0), MaxSaved=c.get("max_saved", 2)))
+                                MaxArgs=c.get("max_args", 0), MaxSaved=c.get("max_saved", 2), MaxHandlers=c.get("max_handlers", 1)))
     dot = os.path.join(ctx.scratch, "graph")
     r = ctx.model_check("MC", "MC.cfg", files={"MC.tla": mc, "MC.cfg": cfg},
                         extra=["-dump", "dot,actionlabels", dot] if dump else [], name="core-mc" + tag)
@@ -243,6 +256,8 @@ def run_core(ctx, c, invariants, properties, obs, rand_count, rand_depth, rand_l
                   layouts=rc["layouts"], opt_lists=rc["opt_lists"], customs=rc.get("customs", []),
                   fail_sets=rc.get("fail_sets", [[]]), groups=rc.get("groups", []), ctx_vals=rc.get("ctx_vals", [[]]),
                   call_args=rc.get("call_args", [[]]), flag_sets=rc.get("flag_sets", []), behaviours=behaviours,
+                  handler_opts=[dict(nocolor=bool(x.get("nocolor")), nosource=bool(x.get("nosource")), json=bool(x.get("json")),
+                                     level=x.get("level", 0)) for x in rc.get("handler_opts", [])],
                   reg_calls=[dict(v=x["v"], t=x.get("t", -1), e=bool(x.get("e")), clash=bool(x.get("clash")))
                              for x in rc.get("reg_calls", [])], proc_per=bool(rc.get("reg_calls")),
                   ts_layouts=sorted(set(x for x in rc["layouts"] if x) | set(TS_EXPORTED)))
@@ -347,7 +362,7 @@ def validate_core_trace(ctx, c, trace_path, max_loggers, name="core-trace"):
     tc["TraceFile"] = "trace.ndjson"
     mct, cfg = gen_mc("MCT", "LoggCoreTrace", tc,
                       ["SPECIFICATION TSpec", "INVARIANTS Done TOneFormat TTreeOK", "CHECK_DEADLOCK FALSE"],
-                      plain=dict(MaxLoggers=max(max_loggers, c["max_loggers"]) + 64, InitLevel=c["init_level"], MaxList=1000, MaxArgs=0, MaxSaved=100000))
+                      plain=dict(MaxLoggers=max(max_loggers, c["max_loggers"]) + 64, InitLevel=c["init_level"], MaxList=1000, MaxArgs=0, MaxSaved=100000, MaxHandlers=100000))
     r = ctx.tlc("MCT", "MCT.cfg", files={"MCT.tla": mct, "MCT.cfg": cfg}, copy={trace_path: "trace.ndjson"},
                 workers=1, name=name, timeout=3000, heap="12g", allow_fail=True)
     if r.invariant_violated:
